@@ -326,6 +326,74 @@ def unit_changes(unit):
     return agg
 
 
+def unit_containers(unit):
+    """cells that are containers or less common scalars: a change of ONE component (a dict value under the same key, a list element,
+    the order of a list, a set member, a nested list, one byte, a Fraction, a Decimal, a date) must change the fingerprint"""
+    from datetime import date, datetime
+    from decimal import Decimal
+    from fractions import Fraction
+    from serif import Vector, Table
+    agg = Agg()
+    pairs = [
+        ({"k": 1}, {"k": 2}), ({"k": 1}, {"j": 1}), ({"a": 1, "b": 2}, {"a": 2, "b": 1}), ({"k": [1, 2]}, {"k": [1, 3]}), ({}, {"k": None}),
+        ([1, 2], [1, 3]), ([1, 2], [2, 1]), ([1, 2], [1, 2, 2]), ([[1], [2]], [[1], [3]]), ([], [None]),
+        ((1, 2), (1, 3)), ((1, 2), (2, 1)), ((1, (2, 3)), (1, (2, 4))),
+        ({1, 2}, {1, 3}), (frozenset({1, 2}), frozenset({1, 3})), ({1}, {1, 2}),
+        (b"ab", b"ac"), (b"ab", b"ba"), (bytearray(b"ab"), bytearray(b"ac")),
+        (Fraction(1, 2), Fraction(1, 3)), (Decimal("1.5"), Decimal("1.6")), (date(2020, 1, 1), date(2020, 1, 2)), (datetime(2020, 1, 1, 1), datetime(2020, 1, 1, 2)),
+        (1 + 2j, 1 + 3j), ("ab", "ba"), (range(3), range(4)),
+    ]
+    fillers = [7, "f", None]
+    for old, new in pairs:
+        for n in (1, 2, 3):
+            for pos in range(n):
+                for fill in fillers:
+                    def build(x):
+                        import copy
+                        vals = [fill] * n
+                        vals[pos] = copy.deepcopy(x)
+                        return vals
+                    for through in ("fresh", "vector", "column-view", "table-cell"):
+                        agg.evals += 1; agg.transitions += 2; agg.states += 1; agg.nontrivial += 1; agg.compared += 1
+                        case = {"old": repr(old), "new": repr(new), "length": n, "position": pos, "filler": repr(fill), "through": through}
+                        try:
+                            if through == "fresh":
+                                f0, f1 = Vector(build(old)).fingerprint(), Vector(build(new)).fingerprint()
+                                tf0 = Table([Vector(build(old), name="a"), Vector(list(range(n)), name="b")]).fingerprint()
+                                tf1 = Table([Vector(build(new), name="a"), Vector(list(range(n)), name="b")]).fingerprint()
+                            else:
+                                t = Table([Vector(build(old), name="a"), Vector(list(range(n)), name="b")])
+                                v = Vector(build(old)) if through == "vector" else t["a"]
+                                f0, tf0 = v.fingerprint(), t.fingerprint()
+                                import copy
+                                if through == "table-cell":
+                                    t[pos, "a"] = copy.deepcopy(new)
+                                    v = t["a"]
+                                else:
+                                    v[pos] = copy.deepcopy(new)
+                                if repr(v._underlying[pos]) != repr(new) or type(v._underlying[pos]) is not type(new):
+                                    # a table cell cannot take an iterable as ONE value (iterables mean rows there): not this check's subject
+                                    agg.skipped["container-not-storable-through-this-path"] += 1
+                                    continue
+                                f1, tf1 = v.fingerprint(), (t.fingerprint() if through != "vector" else None)
+                                if through == "vector":
+                                    tf0 = None
+                                # and the result equals a fresh build
+                                if f1 != Vector(build(new)).fingerprint():
+                                    agg.violation(V("fingerprint.containers", "stale-or-different-from-a-fresh-build", case))
+                                    continue
+                        except Exception as e:
+                            agg.skipped["container-cell-refused-" + type(e).__name__] += 1
+                            continue
+                        if f0 == f1:
+                            agg.violation(V("fingerprint.containers", "component-change-not-noticed-vector", case))
+                        elif tf0 is not None and tf0 == tf1:
+                            agg.violation(V("fingerprint.containers", "component-change-not-noticed-table", case))
+                        else:
+                            agg.outcomes["change-noticed"] += 1
+    return agg
+
+
 def unit_promotions(unit):
     """cached fingerprint, then a PROMOTING write into one position (int->float->complex, date->datetime, also NaN):
     every element's representation may change, the fingerprint must still equal a freshly built vector's"""
@@ -370,7 +438,7 @@ def unit_promotions(unit):
     return agg
 
 
-NESTED_EVENTS = ("fp_outer", "fp_a", "fp_b", "w_a", "w_b_via_outer", "w_outer_elem", "w_a_promote", "read_outer")
+NESTED_EVENTS = ("fp_outer", "fp_a", "fp_b", "w_a", "w_b_via_outer", "w_outer_elem", "w_a_promote", "read_outer", "w_elem0_via_outer", "w_n", "fp_p", "p0_is_a", "p1_is_b")
 
 
 def deep_rebuild_fp(x):
@@ -396,6 +464,8 @@ def unit_nested(unit):
         a = Vector([1, 2], name="a"); b = Vector([3, 4, 5], name="b")
         o = Vector([a, b])
         k = 10
+        n_ = None                    # the vector most recently stored INTO the outer vector by the caller (kept by the caller)
+        p_ = Vector([1, "x", 2.5])   # an ordinary object vector that may RECEIVE a vector as one of its cells later
         for ev in hist:
             k += 1
             if ev == "fp_outer": o.fingerprint()
@@ -403,18 +473,27 @@ def unit_nested(unit):
             elif ev == "fp_b": b.fingerprint()
             elif ev == "w_a": a[0] = k
             elif ev == "w_b_via_outer": o[1][2] = k
-            elif ev == "w_outer_elem": o[0] = Vector([k, k + 1], name="n")
+            elif ev == "w_outer_elem":
+                n_ = Vector([k, k + 1], name="n")
+                o[0] = n_
+            elif ev == "w_elem0_via_outer": o[0][0] = k
+            elif ev == "w_n":
+                if n_ is not None:
+                    n_[1] = k
+            elif ev == "fp_p": p_.fingerprint()
+            elif ev == "p0_is_a": p_[0] = a
+            elif ev == "p1_is_b": p_[1] = b
             elif ev == "w_a_promote": a[1] = k + 0.5
             elif ev == "read_outer":
                 repr(o); o.copy(); o[0:1]; list(o)
-        return o, a, b
+        return o, a, b, p_
 
     def rec(hist):
         agg.states += 1; agg.transitions += 1; agg.evals += 1
         case = {"nested_history": list(hist)}
         try:
-            o, a, b = run(hist)
-            pairs = [("outer", o.fingerprint(), deep_rebuild_fp(o))] + [(nm, x.fingerprint(), deep_rebuild_fp(x)) for nm, x in (("a", a), ("b", b))]
+            o, a, b, p_ = run(hist)
+            pairs = [("outer", o.fingerprint(), deep_rebuild_fp(o))] + [(nm, x.fingerprint(), deep_rebuild_fp(x)) for nm, x in (("a", a), ("b", b), ("p", p_))]
         except Exception as e:
             agg.violation(V("fingerprint.nested", "raises-" + type(e).__name__, case, None, repr(e)[:80]))
             return
@@ -510,6 +589,8 @@ def check(ctx):
     for p in core.pmap(unit_changes, units):
         agg.merge(p)
     for p in core.pmap(unit_promotions, [("promote",)]):
+        agg.merge(p)
+    for p in core.pmap(unit_containers, [("containers",)]):
         agg.merge(p)
     for p in core.pmap(unit_long, [("long", n) for n in (17, 32, 33, 64, 65, 129)]):
         agg.merge(p)
